@@ -234,18 +234,30 @@ type refRun struct {
 	l        *logger
 	moves    int
 	maxMoves int
+	send     bool // every advance after the first is Send(100+k)
+	recv     int  // value the pending yield receives when resumed
 	shared   map[int]int // condition counters of Shared loops (node id -> evaluations since last false)
 }
 
 // yield models the suspension: the consumer's MoveNext returns true with value v,
 // then (if the consumer advances again) the generator resumes.
 func (r *refRun) yield(v int) {
-	r.l.log(fmt.Sprintf("M<true C=%d", v))
+	if r.send && r.moves > 0 {
+		r.l.log(fmt.Sprintf("S<%d,true C=%d", v, v))
+	} else {
+		r.l.log(fmt.Sprintf("M<true C=%d", v))
+	}
 	r.moves++
 	if r.moves >= r.maxMoves {
 		panic(stopRef{})
 	}
-	r.l.log("M>")
+	if r.send {
+		r.recv = 100 + r.moves
+		r.l.log(fmt.Sprintf("S>%d", r.recv))
+	} else {
+		r.recv = 0
+		r.l.log("M>")
+	}
 }
 
 func (r *refRun) run(t *Term) (sig, int) {
@@ -256,7 +268,7 @@ func (r *refRun) run(t *Term) (sig, int) {
 		return r.run(t.A)
 	case "bindrecv":
 		r.yield(t.ID)
-		r.l.log(fmt.Sprintf("t%d(r=%d)", t.ID, 0)) // MoveNext resumes with the zero value
+		r.l.log(fmt.Sprintf("t%d(r=%d)", t.ID, r.recv)) // MoveNext resumes with the zero value, Send(v) with v
 		return r.run(t.A)
 	case "delay":
 		r.l.log(fmt.Sprintf("d%d", t.ID))
@@ -337,6 +349,67 @@ func driveRef(t *Term, maxMoves, budget int) (ev []string) {
 	l.log(fmt.Sprintf("R=%d", v))
 	l.log("M>")
 	l.log(fmt.Sprintf("M<false C=0 R=%d", v))
+	return l.ev
+}
+
+// driveRefSend / driveRealSend: the first advance is MoveNext, every later one Send(100+k).
+func driveRefSend(t *Term, maxMoves, budget int) (ev []string) {
+	l := &logger{budget: budget}
+	r := &refRun{l: l, maxMoves: maxMoves, shared: map[int]int{}, send: true}
+	defer func() {
+		ev = l.ev
+		if x := recover(); x != nil {
+			switch x.(type) {
+			case budgetExceeded:
+				ev = append(ev, "BUDGET")
+			case stopRef:
+			default:
+				panic(x)
+			}
+		}
+	}()
+	l.log("M>")
+	_, v := r.run(t)
+	if r.moves > 0 {
+		l.log("S<0,false C=0")
+	} else {
+		l.log("M<false C=0")
+	}
+	l.log(fmt.Sprintf("R=%d", v))
+	return l.ev
+}
+
+func driveRealSend(t *Term, maxMoves, budget int) (ev []string) {
+	l := &logger{budget: budget}
+	defer func() {
+		ev = l.ev
+		if r := recover(); r != nil {
+			if _, ok := r.(budgetExceeded); ok {
+				ev = append(ev, "BUDGET")
+				return
+			}
+			ev = append(ev, fmt.Sprint("PANIC:", r))
+		}
+	}()
+	it := seq.Start(build(t, l)).(seq.Generator[int])
+	l.log("M>")
+	ok := it.MoveNext()
+	if !ok {
+		l.log(fmt.Sprintf("M<false C=%d", it.Current()))
+		l.log(fmt.Sprintf("R=%d", it.Result()))
+		return l.ev
+	}
+	l.log(fmt.Sprintf("M<true C=%d", it.Current()))
+	for i := 1; i < maxMoves; i++ {
+		l.log(fmt.Sprintf("S>%d", 100+i))
+		v, ok := it.Send(100 + i)
+		if !ok {
+			l.log(fmt.Sprintf("S<%d,false C=%d", v, it.Current()))
+			l.log(fmt.Sprintf("R=%d", it.Result()))
+			return l.ev
+		}
+		l.log(fmt.Sprintf("S<%d,true C=%d", v, it.Current()))
+	}
 	return l.ev
 }
 
@@ -533,7 +606,7 @@ func checkTerm(t *Term, origin string) {
 	n := 0
 	number(t, &n)
 	id := t.String()
-	if plib.Only != "" && plib.Only != id && plib.Only != "term:"+id && plib.Only != "term2:"+id && plib.Only != "term3:"+id {
+	if plib.Only != "" && plib.Only != id && plib.Only != "term:"+id && plib.Only != "term2:"+id && plib.Only != "term3:"+id && plib.Only != "term4:"+id {
 		return
 	}
 	const maxMoves, budget = 8, 400
@@ -578,6 +651,15 @@ func checkTerm(t *Term, origin string) {
 				}
 			}
 		}()
+	}
+	if f["yield"] {
+		ws, gs := driveRefSend(t, maxMoves, budget), driveRealSend(t, maxMoves, budget)
+		res.Count("send_driven_terms", 1)
+		if d := firstDiff(ws, gs); d >= 0 {
+			res.Violate("term4:"+id, "c08-trace-send", fmt.Sprintf("term %s driven by MoveNext then Send(101), Send(102), ...\n reference: %s\n real:      %s\n first difference at event %d: want %q got %q",
+				id, strings.Join(ws, " "), strings.Join(gs, " "), d, at(ws, d), at(gs, d)),
+				map[string]any{"probe": "seqmodel", "mode": "c08", "only": id})
+		}
 	}
 	if d := firstDiff(want, got); d >= 0 {
 		res.Violate("term:"+id, "c08-trace", fmt.Sprintf("term %s\n reference: %s\n real:      %s\n first difference at event %d: want %q got %q",
